@@ -554,8 +554,12 @@ class Rewriter:
         o = self.o
         sig = [t for t in prelude if t.kind not in ("ws", "comment")]
         rule_at = sig[0].pos if sig else (block.pos if block is not None else None)
+        # (a comment is no token: `:/**/host` IS `:host`; only white space between the colon and the name makes it something else)
+        def _no_ws_between(a, b):
+            i, j = prelude.index(a), prelude.index(b)
+            return all(t.kind == "comment" for t in prelude[i + 1:j])
         if o.convert_host and len(sig) >= 2 and sig[0].kind == "colon" and \
-                sig[1].kind in ("ident", "fn") and sig[1].val == "host" and sig[1].pos == _after(sig[0]):
+                sig[1].kind in ("ident", "fn") and sig[1].val == "host" and _no_ws_between(sig[0], sig[1]):
             pure = len(sig) == 2 and sig[1].kind == "ident"
             info = dict(at=sig[0], pure=pure, chain=chain, block=block)
             self.host_rules.append(info)
